@@ -127,7 +127,13 @@ func GetDoc(traveler gdbi.Traveler, namespace string) map[string]interface{} {
 //	}
 //
 // TravelerPathLookup(travler, "$gene.symbol.ensembl") returns "ENSG00000012048"
-func TravelerPathLookup(traveler gdbi.Traveler, path string) interface{} {
+func TravelerPathLookup(traveler gdbi.Traveler, path string) (out interface{}) {
+	//the path library panics when a path indexes into a null value ("l[0]" where l is null)
+	defer func() {
+		if r := recover(); r != nil {
+			out = nil
+		}
+	}()
 	namespace := GetNamespace(path)
 	field := GetJSONPath(path)
 	doc := GetDoc(traveler, namespace)
@@ -143,7 +149,13 @@ func TravelerPathLookup(traveler gdbi.Traveler, path string) interface{} {
 }
 
 // TravelerSetValue(travler, "$gene.symbol.ensembl", "hi") inserts the value in the location"
-func TravelerSetValue(traveler gdbi.Traveler, path string, val interface{}) error {
+func TravelerSetValue(traveler gdbi.Traveler, path string, val interface{}) (err error) {
+	//the path library panics when the element has no data map to set the value in
+	defer func() {
+		if r := recover(); r != nil {
+			err = fmt.Errorf("cannot set %s: %v", path, r)
+		}
+	}()
 	namespace := GetNamespace(path)
 	field := GetJSONPath(path)
 	if field == "" {
@@ -154,7 +166,13 @@ func TravelerSetValue(traveler gdbi.Traveler, path string, val interface{}) erro
 }
 
 // TravelerPathExists returns true if the field exists in the given Traveler
-func TravelerPathExists(traveler gdbi.Traveler, path string) bool {
+func TravelerPathExists(traveler gdbi.Traveler, path string) (found bool) {
+	//the path library panics when a path indexes into a null value
+	defer func() {
+		if r := recover(); r != nil {
+			found = false
+		}
+	}()
 	namespace := GetNamespace(path)
 	field := GetJSONPath(path)
 	if field == "" {
